@@ -103,8 +103,9 @@ def run(ctx):
         i = r["i"]
         if i < len(plan):
             e = entries[plan[i]]
-            calls = wiring.expected_calls(e)
-            meta.append(("surface", e, calls, r))
+            variant = wiring.LAST_VARIANTS[i]
+            calls = wiring.expected_calls(e, variant)
+            meta.append(("surface", dict(e, _variant=variant), calls, r))
         else:
             o = oper[i - len(plan)]
             calls = [(o["op"], o["ts"], o["cs"])]
@@ -137,11 +138,11 @@ def run(ctx):
             ctx.violations.append((what, {"surface": "operate", "operator": e["op"], "targets": e["ts"], "controls": e["cs"], "chain": e["chain"],
                                           "probe": probes[r["p"]], "n": wiring.NPROBE, "impl": r.get("e", "ok, different amplitudes"), "verdict_bits": code}))
             continue
-        args = {n: wiring.role_value(role, e["family"]) for n, role, _ in e["roles"]}
+        args = {n: wiring.role_value(role, e["family"], e.get("_variant", 0)) for n, role, _ in e["roles"]}
         what = "%s with %s %s" % (label(e), json.dumps(args),
                                   ("returned %s" % r.get("e")) if r["r"] != "ok" else "does not perform the documented %s" % json.dumps(calls))
         ctx.violations.append((what, {"surface": e["surface"], "name": e["name"], "label": label(e), "args": args, "documented_calls": calls,
-                                      "probe": probes[r["p"]], "n": wiring.NPROBE, "impl": r.get("e", "ok, different amplitudes"), "verdict_bits": code}))
+                                      "variant": e.get("_variant", 0), "probe": probes[r["p"]], "n": wiring.NPROBE, "impl": r.get("e", "ok, different amplitudes"), "verdict_bits": code}))
     if seen_known:
         k = known[KNOWN_CLASS]
         ctx.known.append("%s (%d of the operate forms executed)" % (k["what"], seen_known))
@@ -155,7 +156,7 @@ def run(ctx):
                   rule="translator regenerates the wiring table (%d rows: State methods, chainable forms, Gate constructors, CircuitBuilder methods, circuit! arms "
                        "of both terminations) and Coq decides it; every row and %d operate forms are executed on %d probe states of %d qubits with distinct qubits in "
                        "every role and compared bit for bit with the model of the documented-role call list" % (len(entries), len(oper), nprobe, wiring.NPROBE),
-                  samples=[{"surface": label(entries[plan[i]]), "documented_calls": wiring.expected_calls(entries[plan[i]])} for i in (0, len(plan) // 2, len(plan) - 1)],
+                  samples=[{"surface": label(entries[plan[i]]), "documented_calls": wiring.expected_calls(entries[plan[i]], wiring.LAST_VARIANTS[i])} for i in (0, len(plan) // 2, len(plan) - 1)],
                   extra={"verdict_counts": stats, "operators": fams, "translator_problems": problems + notes})
 
 def replay(ctx, path):
@@ -175,8 +176,8 @@ def replay(ctx, path):
         i = r["i"]
         if i < len(plan):
             e = entries[plan[i]]
-            if rp["surface"] == "operate" or e["surface"] != rp["surface"] or e["name"] != rp["name"]: continue
-            calls = wiring.expected_calls(e)
+            if rp["surface"] == "operate" or e["surface"] != rp["surface"] or e["name"] != rp["name"] or wiring.LAST_VARIANTS[i] != rp.get("variant", 0): continue
+            calls = wiring.expected_calls(e, wiring.LAST_VARIANTS[i])
         else:
             o = oper[i - len(plan)]
             if rp["surface"] != "operate" or (o["op"], o["ts"], o["cs"], o["chain"]) != (rp["operator"], rp["targets"], rp["controls"], rp["chain"]): continue
